@@ -247,10 +247,13 @@ fn hdbg(_ctx: &Ctx, h: Hdr, what: &str) -> Value {
     macro_rules! d {
         ($e:expr) => {
             {
+                let before = s.len();
                 write!(s, "{:?}", $e).unwrap();
+                let plain = s.len() - before;
                 write!(s, "{:#?}", $e).unwrap();
-                // ... and into sinks that refuse after a few bytes: Debug reports the error, it does not panic
-                for n in [0usize, 5, 40] {
+                // ... and into sinks that refuse at various points of the output: Debug reports the error, it does
+                // not panic
+                for n in [0, 1, plain / 8, plain / 4, plain / 2, plain * 3 / 4, plain.saturating_sub(2)] {
                     let _ = write!(crate::out::Limited(n), "{:?}", $e);
                 }
             }
